@@ -22,10 +22,10 @@ from vlib.gen import values as V
 ID = "C08"
 LEVEL = "exploration"
 RULE = (
-    "Style (27) x EOL {LF, CRLF, CR} x BOM x first-line declaration (shebang / <?xml / <?php / cabal-version / % !TEX where the style documents one) x "
+    "Style (27) x EOL {LF, CRLF, CR} x BOM x first-line declaration (shebang / <?xml / <?php / cabal-version / % !TEX where the style documents one; optionally a second declaration of another kind below it) x "
     "0..6 pre-lines and 0..8 post-lines from {code, indented code, blank runs, comment lines in the file's own and in foreign styles, form-feed and "
     "U+2028 lines, trailing-blank lines, code lines that merely start with the letters of a word-like marker ('REMOVE.EXE' in a batch file), lines holding a stray carriage return (LF / CRLF files, clearly in the minority)} x existing header {absent, single-line block, multi-line block, block whose closing delimiter is followed by code on the same line} at top or in the middle x final newline or "
-    "not x replace / --no-replace.  Every outside line carries a unique token.  Oracle: outside lines are found byte-for-byte and in order around one "
+    "not x {ordinary, block of more than 4 KiB} x replace / --no-replace.  Every outside line carries a unique token.  Oracle: outside lines are found byte-for-byte and in order around one "
     "inserted block; only blank lines / trailing blanks adjacent to the block may differ; BOM first, declaration first line, all EOLs as in the input, "
     "final newline kept.  Non-trivial = >= 2 outside lines and (existing header or declaration or BOM or non-LF EOL); distinct by file content + options."
 )
@@ -38,6 +38,11 @@ ASSUMPTIONS = [
 DECL = {"python": ["#!/usr/bin/env python3"], "julia": ["#!/usr/bin/env julia"], "html": ['<?xml version="1.0" encoding="UTF-8"?>'],
         "cpp": ["<?php", "#!/usr/bin/env v"], "tex": ["% !TEX root = main.tex", "%!TEX program = xelatex"], "haskell": ["cabal-version: 3.0"],
         "cppsingle": ["#!/usr/bin/env gleam"], "bibtex": ["% !BIB program = biber"]}
+
+
+# a second first-line declaration of ANOTHER kind right below the first (an executable PHP script: '#!...' then '<?php'); it is an ordinary
+# outside line: the first line stays first, this one is kept as it is
+DECL2 = {"cpp": {"#!/usr/bin/env v": "<?php"}, "tex": {"% !TEX root = main.tex": "%!TEX program = xelatex"}, "bibtex": {"% !BIB program = biber": "%!BIB program = bibtex8"}}
 
 
 def own_comment(style, k):
@@ -120,7 +125,11 @@ def case(draw):
     if decl and draw(st.integers(0, 3)) == 0:
         # the first line recurs verbatim further down (a script writing a script, a quoted XML declaration)
         post = post + [decl, "int after_dup; ~299~"]
+    if decl and DECL2.get(style, {}).get(decl) and draw(st.booleans()):
+        pre = [DECL2[style][decl]] + pre
     if hinfo:
+        # a header block of more than 4 KiB (tags, then a long licence notice): it has to be found and replaced as a whole
+        hinfo["long"] = draw(st.integers(0, 5)) == 0
         hinfo["trail"] = draw(st.lists(st.sampled_from(["", "", " ", "  ", "\t", " \t "]), min_size=6, max_size=6))
         # code on the same line as the delimiter that closes an existing block header
         hinfo["tailcode"] = draw(st.integers(0, 5)) == 0
@@ -130,6 +139,8 @@ def case(draw):
 
 def header_lines(style, form, hinfo):
     body = hinfo["cop"] + [""] + [f"SPDX-License-Identifier: {x}" for x in hinfo["lic"]]
+    if hinfo.get("long"):
+        body += [""] + [f"This program is free software; you can redistribute it and/or modify it, notice line {i:02d}." for i in range(62)]
     if form == "multi" and S.has_multi(style) or not S.has_single(style):
         out = S.wrap_block(style, body)
     else:
@@ -210,7 +221,8 @@ def check(ctx, c):
         labels_extra = ["tailcode-after-closing-delimiter"] if tailcode else []
         ctx.count(text + repr(args), nontrivial=len([x for x in O if x.strip()]) >= 2 and bool(hl or c["decl"] or c["bom"] or eol != "\n"),
                   labels=[f"style:{style}", f"eol:{eol!r}", f"bom:{c['bom']}", f"decl:{bool(c['decl'])}", f"header:{c['header']}", f"no_replace:{c['no_replace']}",
-                          f"final_newline:{c['final_newline']}", f"exit:{res.code}"] + labels_extra,
+                          f"final_newline:{c['final_newline']}", f"exit:{res.code}", f"header>4KiB:{bool(c['hinfo'] and c['hinfo'].get('long'))}",
+                          f"second-declaration:{bool(c['decl'] and c['pre'] and DECL2.get(style, {}).get(c['decl']) == c['pre'][0])}"] + labels_extra,
                   sample={"name": name, "input": text[:400], "args": args})
         if res.crash is not None:
             ctx.label("crash-left-to-C16")
